@@ -23,6 +23,8 @@ fn offsets(wide: bool) -> Vec<i32> {
     let r = if wide { 130 } else { 40 };
     let mut v: Vec<i32> = (-r..=r).collect();
     v.extend([48, 60, 120, 1200, 144, 240, -48, -60, -120, -1200, -144, -240]);
+    // beyond 127 and 128 whole years, not multiples of 12
+    v.extend([1523, 1535, 1537, 1543, 1549, 2003, 2771, -1523, -1535, -1537, -1543, -1549, -2003, -2771]);
     v
 }
 
@@ -295,7 +297,7 @@ pub fn run(ctx: &Ctx, replay_file: Option<String>) -> ! {
     }
     let meta = Meta::exploration(
         "EVERY start date 1970-01-01..2200-12-31 x every month offset in -40..40 (thorough -130..130) and \
-         +-{48,60,120,144,240,1200} x every roll kind (Unspecified, Int 1..31, EoM, SoM, IMM) with Modifier::Act on the \
+         +-{48,60,120,144,240,1200,1523,1535,1537,1543,1549,2003,2771} x every roll kind (Unspecified, Int 1..31, EoM, SoM, IMM) with Modifier::Act on the \
          'all' calendar; get_imm / get_eom / is_imm / is_eom / get_roll for every day and month of 1600-2409, \
          is_leap_year for every such year; get_imm and get_roll (IMM, EoM, Int 29, Int 30) for a month called FIRST (every 7th month and all months of 11 leap / century years; thorough: every month) followed by every month of 1970-2200 called second; add_months under the other four modifiers and both settlement flags on \
          three calendars with holidays = roll(unadjusted date). Oracle: civil-date arithmetic (floor division on \
